@@ -244,7 +244,14 @@ impl Gen {
         let nrec = if forge { 1 } else { *self.rng.pick(&[1usize, 1, 1, 2, 3]) };
         let fixed = 11 + q.len() as i64 + 12 * nrec as i64; // entry bytes besides payload
         // number of additional whole blocks the entry should span
-        let extra_blocks = *self.rng.pick(&[0i64, 0, 0, 1, 1, 2, 3, 5]);
+        let mut extra_blocks = *self.rng.pick(&[0i64, 0, 0, 1, 1, 2, 3, 5]);
+        // one time in three aim at the end of the FILE (the last block of the file)
+        if self.rng.chance(1, 3) {
+            let fsz = self.cfg.file_size.max(BLOCK);
+            let in_file = cursor % fsz;
+            let blocks_left_in_file = ((fsz - in_file + BLOCK - 1) / BLOCK) as i64; // incl. the current one
+            extra_blocks = blocks_left_in_file - 1;
+        }
         let d = if forge { crate::ops::FORGED_ENTRY_LEN as i64 } else { self.rng.range(0, 18) as i64 - 9 }; // -9..=9 around the boundary
         // entry length such that (with one header per frame) the last frame ends d bytes
         // from the end of the target block
@@ -426,6 +433,26 @@ impl Gen {
         if self.st.is_empty() {
             let q = self.rng.pick(&self.names).clone();
             return Op::Create { q };
+        }
+        // align profile: when the write cursor sits within a few bytes of the end of the WAL
+        // file, favour CONTROL entries (create / truncate / delete) so that they are the ones
+        // that straddle or trigger the roll-over
+        if self.cfg.profile == Profile::Align {
+            if let Some(c) = cursor {
+                let fsz = self.cfg.file_size;
+                let rem = if c <= fsz { fsz - c } else { 0 };
+                if rem < 48 && self.rng.chance(2, 3) {
+                    let missing: Vec<String> = self.names.iter().filter(|n| !self.st.contains_key(*n)).cloned().collect();
+                    return match self.rng.below(3) {
+                        0 if !missing.is_empty() => Op::Create { q: self.rng.pick(&missing).clone() },
+                        1 if self.st.len() > 1 => Op::Delete { q: self.pick_existing().unwrap() },
+                        _ => {
+                            let q = self.pick_existing().unwrap();
+                            self.gen_truncate(q)
+                        }
+                    };
+                }
+            }
         }
         let pm = self.rng.below(1000) as u32;
         if pm < self.cfg.restart_pm {
